@@ -72,6 +72,11 @@ def conic_stream(ctx, n):
     rng = ctx.rng
     for k in range(n):
         pts = five_points(rng)
+        if k % 3 == 2:
+            # the same configurations with coordinates of magnitude up to 80 (the matrix is normalised to |det| = 1)
+            pts = [[p[0] * 20 + rng.randint(-3, 3), p[1] * 20 + rng.randint(-3, 3), p[2]] for p in pts]
+            if not all(fdet([pts[i] for i in idx]) != 0 for idx in itertools.combinations(range(5), 3)):
+                continue
         P = [hp(rng, p[:2]) for p in pts]
         desc = f"from_points {[[str(x) for x in p[:2]] for p in pts]}"
         ctx.case(desc)
@@ -84,6 +89,10 @@ def conic_stream(ctx, n):
         bad = [i for i, p in enumerate(P) if not on(A, p.array)]
         if bad:
             ctx.disagree(f"C13:from_points:misses-point-{bad[0]}", desc, "all five points on the conic", [resid(A, p.array) for p in P], replay=[desc])
+            continue
+        own = call_impl(lambda: [bool(c[1].contains(p)) for p in P])
+        if own[0] != "ok" or not all(own[1]):
+            ctx.disagree("C13:from_points:contains-own-points", desc, [True] * 5, own[1:3], replay=[desc])
             continue
         # from_crossratio agrees
         cr = call_impl(lambda: g.crossratio(P[0], P[1], P[2], P[3], P[4]))
